@@ -351,8 +351,9 @@ class Report:
             "coverage": self.cov, "assumptions": self.assumptions, "wall_s": round(wall, 2),
             "violations": len(self.violations),
         }
-        os.makedirs(os.path.join(VERIF, "evidence"), exist_ok=True)
-        json.dump(ev, open(os.path.join(VERIF, "evidence", self.prop_id + ".json"), "w"), indent=1)
+        evdir = os.environ.get("VERIF_EVIDENCE_DIR") or os.path.join(VERIF, "evidence")     # seeded-change trials write elsewhere
+        os.makedirs(evdir, exist_ok=True)
+        json.dump(ev, open(os.path.join(evdir, self.prop_id + ".json"), "w"), indent=1)
         for k in self.known_lines:
             print("KNOWN-FINDING: property=%s %s" % (self.prop_id, k))
         seen = set()
